@@ -8,6 +8,7 @@
    TWO LAYERS, TIED TOGETHER BY INVARIANTS
    ---------------------------------------
    Geometry (the truth the statement talks about; nothing here is copied from the code):
+   (SymXY, SymRot2/SymRotVec, SymCross, SymDot, SymCellAt are defined in SymLattice.tla)
      SymXY(o,c)       centre of cell c=(i,j) as an integer pair in lattice units
                          flats up   ("flat")   : x = X * side/2 ,  y = Y * pitch/2 ,  X = 3i   , Y = i+2j
                          corners up ("corner") : x = X * pitch/2,  y = Y * side/2  ,  X = i-j  , Y = 3(i+j)
@@ -15,7 +16,7 @@
      SymRotVec(o,k,p) the vector p turned by k*60 degrees COUNTER-CLOCKWISE with the rotation matrix
                       [[cos,-sin],[sin,cos]], cos(60k) = SymC6(k)/2, sin(60k) = r3*SymS6(k)/2, written on the
                       integer pairs (exact: all numerators are even on the lattice, see GeoRotExact).
-                      The tables SymC6/SymS6 are pinned down by the ASSUMEs below (unit length, angle
+                      The tables SymC6/SymS6 are pinned down by the ASSUMEs in SymLattice (unit length, angle
                       addition, cos 60 = 1/2, sin 60 = r3/2 > 0).
      GeoRot(o,k,c)    THE cell whose centre is the centre of c turned by k*60 degrees (SymCellAt = inverse of SymXY;
                       GeoRotExact checks that the lookup is exact and unique among all cells).
@@ -28,17 +29,18 @@
      GeoLine          which symmetry line the centre of a cell lies on (cross product = 0, dot product > 0).
    Index operations (what the code computes; each operator transcribes one function):
      AlgEquivThird    HexGrid._getSymmetricIdenticalsThird             [(-i-j, i), (j, -i-j)], [] at centre
-     AlgRingPos       HexGrid.indicesToRingPos                          six edge branches
+     AlgRingPos       HexGrid.indicesToRingPos                          six edge branches          (in SymLattice)
      AlgFirstThird    HexGrid.isInFirstThird / locatorInDomain          maxPos1 / maxPos2 arithmetic on ring,pos
      AlgLine          HexGrid.overlapsWhichSymmetryLine                 1=0deg 2=60deg 3=120deg 4=centre 0=None
-     AlgRot           HexGrid.rotateIndex                               deque((i,j,-(i+j))).rotate(-k), negate if k odd
+     AlgRot           HexGrid.rotateIndex             (in SymLattice)   deque((i,j,-(i+j))).rotate(-k), negate if k odd
      AlgRotNum        hexagon.getIndexOfRotatedCell                     n + (ring-1) k, wrapped inside the ring
 
    STATE MACHINE    state = (o, c): grid orientation and a cell within N rings; every such pair is initial.
      Rotate(k)      the only mutator of the subsystem: HexGrid.rotateIndex(loc, k), k in KSet (-K..K plus a few
                     large magnitudes of both signs; the statement quantifies over all k in Z).
      act            the last action (with the cell it started from) so that the laws about one rotation step are
-                    plain invariants.
+                    plain invariants.  In the exhaustive configs act is part of the state (every (cell, k) pair is a
+                    state of its own and gets its invariants checked); the emission configs hide it with a VIEW.
 
    PROPERTY CLAUSES -> INVARIANTS
      equivalents are exactly the images under 120-degree rotations ........ EquivalentsAreImages
